@@ -14,7 +14,8 @@ import (
 // C06 — splitting into periods preserves the timeline and the segment identities (engine T).
 
 type c06World struct {
-	VodRoot string `json:"vodroot"`
+	Gen     *GenWorld `json:"gen,omitempty"` // generated VoD world instead of the bundled assets
+	VodRoot string    `json:"vodroot"`
 	Asset   string `json:"asset"`
 	MPD     string `json:"mpd"`
 	Cfg     URLCfg `json:"cfg"` // with Periods set; the twin is the same without periods/continuous
@@ -32,8 +33,8 @@ func (C06) ID() string     { return "C06" }
 func (C06) Engine() string { return "tlsim" }
 
 func (C06) Gen(rng *core.Rng, tier string, idx int) *core.Scenario {
-	ar := core.Pick(rng, bundledMPDs)
-	a := refAssets(hx.BundledAssets)[ar.Asset]
+	label, gen, assetName, mpdName, a := pickMPDWorld(rng)
+	ar := assetRef{Asset: assetName, MPD: mpdName}
 	base := int64(1_600_000_000_000) + rng.Int63n(300_000_000_000)
 	if rng.Chance(0.1) {
 		base = rng.Int63n(3_000_000_000_000)
@@ -69,7 +70,7 @@ func (C06) Gen(rng *core.Rng, tier string, idx int) *core.Scenario {
 	}
 	cfg.Periods = pint(n)
 	cfg.Continuous = rng.Chance(0.4)
-	w := c06World{VodRoot: "bundled", Asset: ar.Asset, MPD: ar.MPD, Cfg: cfg}
+	w := c06World{VodRoot: label, Gen: gen, Asset: ar.Asset, MPD: ar.MPD, Cfg: cfg}
 	sc := core.NewScenario("C06", "tlsim", 0, tier, w)
 	pd := int64(3600/n) * 1000
 	nOps := rng.Range(3, 7)
@@ -114,6 +115,9 @@ func (C06) Run(t *testing.T, sc *core.Scenario, res *core.Result) {
 		panic(err)
 	}
 	root := vodRootOf(w.VodRoot)
+	if w.Gen != nil {
+		root = genRoot(*w.Gen)
+	}
 	srv := sharedSrv(root)
 	a := refAssets(root)[w.Asset]
 	if a == nil || w.Cfg.Periods == nil {
